@@ -331,6 +331,28 @@ class EvalPanic(Exception):
     """the evaluated expression would panic for this input (slice / index out of range, arithmetic overflow, unwrap on None / Err)"""
 
 
+class Brk(Exception):
+    pass
+
+
+class IterObj:
+    """a stateful iterator value (chars / bytes / slice iterators): `next` advances it, `clone` copies it"""
+
+    def __init__(self, items, kind=None, pos=0):
+        self.items = list(items)
+        self.kind = kind
+        self.pos = pos
+
+    def clone(self):
+        return IterObj(self.items, self.kind, self.pos)
+
+    def rest(self):
+        return self.items[self.pos:]
+
+    def __repr__(self):
+        return f'IterObj({self.rest()!r})'
+
+
 class Ret(Exception):
     def __init__(self, v):
         self.v = v
@@ -380,7 +402,14 @@ class Interp:
                 return self.ev.integer(e, env)
             except Unanalysable:
                 return tuple(self.ev.array(e))
-        if k in ('cast', 'addrof'):
+        if k == 'cast':
+            v = self.val(e['a'], env)
+            ty = (e.get('t') or '').strip()
+            if getattr(self, 'checked_arith', False) and ty in INT_BOUNDS and isinstance(v, int) and not isinstance(v, bool) \
+                    and not (INT_BOUNDS[ty][0] <= v <= INT_BOUNDS[ty][1]):
+                raise EvalPanic(f'`{v} as {ty}` loses the value (line {e.get("l")})')
+            return v
+        if k == 'addrof':
             return self.val(e['a'], env)
         if k == 'unary':
             v = self.val(e['a'], env)
@@ -408,6 +437,15 @@ class Interp:
                         and not (INT_BOUNDS[ty][0] <= r <= INT_BOUNDS[ty][1]):
                     raise EvalPanic(f'`{a} {op} {b}` overflows {ty} (line {e.get("l")})')
                 return r
+        if k == 'loop':
+            for _ in range(200000):
+                try:
+                    self.val(e['body'], env)
+                except Brk:
+                    return ()
+            raise Unanalysable('loop does not terminate in evaluation')
+        if k == 'break':
+            raise Brk()
         if k == 'letexpr':
             v = self.val(e['init'], env)
             env2 = dict(env)
@@ -483,6 +521,18 @@ class Interp:
                 return args[0]
             if 'RangeInclusive' in p and seg == 'new':
                 return ('range', args[0], args[1])
+            if seg == 'into_iter' and len(args) == 1:
+                a0 = args[0]
+                if isinstance(a0, IterObj):
+                    return a0
+                if isinstance(a0, tuple) and len(a0) == 2 and a0[0] == 'iter':
+                    return IterObj(a0[1])
+                if isinstance(a0, tuple) and a0 and a0[0] == 'range' and isinstance(a0[1], int) and isinstance(a0[2], int):
+                    return IterObj(range(a0[1], a0[2] + 1))
+                if isinstance(a0, (tuple, list)) and not (a0 and a0[0] in ('ctor', 'struct', 'closure')):
+                    return IterObj(a0)
+            if seg == 'next' and 'Iterator' in p and len(args) == 1 and isinstance(args[0], IterObj):
+                return self._iter_next(args[0])
             if seg == 'from_utf8' and 'str' in p and len(args) == 1 and isinstance(args[0], tuple) and all(isinstance(x, int) for x in args[0]):
                 try:
                     return ('ctor', 'core::result::Result::Ok', (bytes(args[0]).decode('utf-8'),))
@@ -502,6 +552,22 @@ class Interp:
                 return BYTE_PREDICATES[name](recv)
             SOME, NONE, OK, ERR = 'core::option::Option::Some', 'core::option::Option::None', 'core::result::Result::Ok', 'core::result::Result::Err'
             opt = lambda x: ('ctor', NONE) if x is None else ('ctor', SOME, (x,))
+            if isinstance(recv, IterObj):
+                if name == 'next' and not args:
+                    return self._iter_next(recv)
+                if name == 'clone' and not args:
+                    return recv.clone()
+                if name in ('by_ref', 'peekable', 'into_iter', 'iter') and not args:
+                    return recv
+                if name == 'nth' and len(args) == 1 and isinstance(args[0], int):
+                    recv.pos = min(len(recv.items), recv.pos + args[0])
+                    return self._iter_next(recv)
+                if name == 'as_str' and not args and recv.kind == 'chars':
+                    return ''.join(chr(c) for c in recv.rest())
+                # any other adaptor consumes what is left
+                rest = recv.rest()
+                recv.pos = len(recv.items)
+                recv = ('iter', rest)
             if isinstance(recv, tuple) and len(recv) == 2 and recv[0] == 'iter':
                 xs = recv[1]
                 truth = lambda c, x: bool(self.apply(c, [x]))
@@ -559,12 +625,14 @@ class Interp:
                         return ('iter', out)
             if isinstance(recv, (str, tuple)) and not (isinstance(recv, tuple) and recv and recv[0] in ('ctor', 'struct', 'range', 'closure', 'iter')):
                 if name in ('iter', 'into_iter') and not args and isinstance(recv, tuple):
-                    return ('iter', list(recv))
+                    return IterObj(recv)
                 if name in ('bytes', 'as_bytes') and not args and isinstance(recv, str):
                     b = tuple(recv.encode('utf-8'))
-                    return ('iter', list(b)) if name == 'bytes' else b
+                    return IterObj(b, 'bytes') if name == 'bytes' else b
                 if name == 'chars' and not args and isinstance(recv, str):
-                    return ('iter', [ord(c) for c in recv])
+                    return IterObj([ord(c) for c in recv], 'chars')
+                if name == 'pow' and False:
+                    pass
                 if name == 'len' and not args:
                     return len(recv.encode('utf-8')) if isinstance(recv, str) else len(recv)
                 if name == 'is_empty' and not args:
@@ -578,6 +646,8 @@ class Interp:
                         return ('ctor', OK, (val,)) if INT_BOUNDS[ty][0] <= val <= INT_BOUNDS[ty][1] else ('ctor', ERR, (('parse-error',),))
                     if ty in INT_BOUNDS:
                         return ('ctor', ERR, (('parse-error',),))
+            if isinstance(recv, int) and not isinstance(recv, bool) and name == 'pow' and len(args) == 1 and isinstance(args[0], int) and args[0] >= 0:
+                return recv ** args[0]
             if isinstance(recv, int) and not isinstance(recv, bool) and name in ('checked_mul', 'checked_add', 'checked_sub') and len(args) == 1:
                 ty = [t for t in INT_BOUNDS if f'Option<{t}>' in (e.get('t') or '')]
                 if ty:
@@ -719,6 +789,14 @@ class Interp:
         finally:
             self._depth -= 1
 
+    @staticmethod
+    def _iter_next(it):
+        if it.pos < len(it.items):
+            v = it.items[it.pos]
+            it.pos += 1
+            return ('ctor', 'core::option::Option::Some', (v,))
+        return ('ctor', 'core::option::Option::None')
+
     def _workspace_body(self, fnode):
         """HIR body of a called function of the five crates (pure helpers are evaluated, not executed), or None"""
         facts = getattr(self.ev, 'facts', None)
@@ -820,9 +898,6 @@ def truth_table(ev, expr, atom_of, nvars=None):
         table[vals] = bool(interp.run(e, env))
     return names, table
 
-
-class Brk(Exception):
-    pass
 
 
 class FxInterp(Interp):
